@@ -227,3 +227,41 @@ theorem get_none_below_unset (m : RMsg) (hwf : WFMsg m) (pre : Path) (n : Bytes)
     cases hc'
 
 end GB.C10.RP
+
+namespace GB.C10.RP
+open GB GB.C09
+
+theorem contains_names (root : RDesc) (e : Bytes) :
+    (root.map (·.name)).contains e = (root.byName e).isSome := by
+  rw [Bool.eq_iff_iff]
+  simp only [List.contains_iff_mem, List.mem_map, RDesc.byName, List.find?_isSome, beq_iff_eq]
+
+/-- the flat model of round 1 (`GB.C10.traverseFieldPath`, all fields scalar) is the nested model on a flat message type -/
+theorem traverse_flat (sch : RSchema) (root : RDesc) (hflat : ∀ f ∈ root, ∃ c k, f.ty = .leaf c k) (path : Bytes) :
+    GB.C10.traverseFieldPath (root.map (·.name)) path =
+      (traverse sch root path).map (fun sel => match sel with
+        | none => Selected.whole
+        | some (_, fd) => Selected.field fd.name) := by
+  unfold GB.C10.traverseFieldPath traverse
+  by_cases hw : (path == [] || path == [42]) = true
+  · simp only [hw, if_true, Option.map_some]
+  · simp only [hw, Bool.false_eq_true, if_false]
+    rw [walk]
+    cases hcut : cutDot path with
+    | mk elem r2 =>
+      obtain ⟨rest, found⟩ := r2
+      simp only
+      by_cases he : (found && elem == []) = true
+      · simp only [he, if_true, Option.map_none]
+      · simp only [he, Bool.false_eq_true, if_false, contains_names]
+        cases hb : root.byName elem with
+        | none => simp
+        | some fd =>
+          obtain ⟨hn, hmem⟩ := byName_name hb
+          obtain ⟨c, k, hty⟩ := hflat fd hmem
+          simp only [Option.isSome_some, Bool.not_true, Bool.false_eq_true, if_false]
+          by_cases hr : (rest == []) = true
+          · simp [hr, hn]
+          · simp [hr, hty]
+
+end GB.C10.RP
